@@ -229,6 +229,14 @@ func TestC13(t *testing.T) {
 		return sig, msg
 	}
 	if r.Replay != "" {
+		var cc c13Cons
+		if err := r.ReplayInput(&cc); err == nil && cc.Cons {
+			r.Eval()
+			if sig, msg, _ := c13ConsEval(&cc); sig != "" {
+				r.Report(&cc, sig, "%s", msg)
+			}
+			return
+		}
 		var c typeCase
 		if err := r.ReplayInput(&c); err != nil {
 			t.Fatal(err)
@@ -242,6 +250,43 @@ func TestC13(t *testing.T) {
 	if r.Shard == 0 {
 		typeReplayFindings(r, eval)
 	}
+	r.Check(t, "constraints", r.N(1500, 60000), func(t *rapid.T) {
+		c := &c13Cons{Cons: true}
+		n := rapid.IntRange(1, 4).Draw(t, "nterms")
+		seen := map[string]bool{}
+		for i := 0; i < n; i++ {
+			ty := pick(t, "term", c13TermTypes)
+			if seen[ty] {
+				continue
+			}
+			seen[ty] = true
+			c.Terms = append(c.Terms, c13Term{Tilde: rapid.Bool().Draw(t, "tilde"), T: ty})
+		}
+		c.Comparable = rapid.IntRange(0, 4).Draw(t, "comparable") == 0
+		c.Method = rapid.IntRange(0, 3).Draw(t, "method") == 0
+		c.Embed = rapid.IntRange(0, 5).Draw(t, "embed") == 0
+		sig, msg, unsound := c13ConsEval(c)
+		r.Eval()
+		if unsound {
+			r.Class("constraint:generator_unsound")
+			return
+		}
+		if sig != "" {
+			if f := r.MatchKnown(sig); f != nil {
+				r.Known(f)
+				return
+			}
+			r.Fail(t, c, sig, "%s", msg)
+		}
+		r.Class(fmt.Sprintf("constraint:terms=%d", len(c.Terms)))
+		for i, tm := range c.Terms {
+			if tm.Tilde && i > 0 {
+				r.Class("constraint:tilde-on-later-term")
+			}
+		}
+		r.Nontrivial("constraint:" + c.String())
+		r.Sample(func() any { return c.String() })
+	})
 	env := typeEnv()
 	opts := gen.TypeGenOpts{MaxDepth: 5, NoGenSig: true, BigArrays: true, FancyTags: true, NamedParam: true}
 	r.Check(t, "type-roundtrip", r.N(8000, 400000), func(t *rapid.T) {
@@ -272,6 +317,124 @@ func TestC13(t *testing.T) {
 		r.Sample(func() any { return d.String() })
 	})
 }
+
+
+// ---- C13, constraint interfaces: unions and approximation terms ------------------------------------
+
+type c13Term struct {
+	Tilde bool   `json:"tilde,omitempty"`
+	T     string `json:"t"`
+}
+
+// c13Cons is an interface with one embedded union (and optionally comparable, a method, and an
+// embedded named interface), used as the underlying type of a declared type and as the constraint
+// of a type parameter.
+type c13Cons struct {
+	Cons       bool      `json:"cons"` // marks the replay as a constraint case
+	Terms      []c13Term `json:"terms"`
+	Comparable bool      `json:"comparable,omitempty"`
+	Method     bool      `json:"method,omitempty"`
+	Embed      bool      `json:"embed,omitempty"`
+}
+
+func (c *c13Cons) String() string {
+	var ts []string
+	for _, t := range c.Terms {
+		if t.Tilde {
+			ts = append(ts, "~"+t.T)
+		} else {
+			ts = append(ts, t.T)
+		}
+	}
+	s := "interface{ " + strings.Join(ts, " | ")
+	if c.Comparable {
+		s += "; comparable"
+	}
+	if c.Embed {
+		s += "; I0"
+	}
+	if c.Method {
+		s += "; Str() string"
+	}
+	return s + " }"
+}
+
+func c13ConsEval(c *c13Cons) (sig, msg string, unsound bool) {
+	// is the constraint valid Go at all (overlapping terms, ~ on a named type, ...)?
+	probe := typePrelude + "\ntype CT " + c.String() + "\n\nfunc GC[P " + c.String() + "](p P) {}\n"
+	if pc := oracle.CheckSources("main", map[string]string{"probe.go": probe}, oracle.Importer()); !pc.OK() {
+		return "", "", true
+	}
+	var want string
+	fset := token.NewFileSet()
+	f, err := parser.ParseFile(fset, "p.go", typePrelude, parser.SkipObjectResolution)
+	if err != nil {
+		panic(err)
+	}
+	res := drive.Build(fset, []*ast.File{f}, map[string][]byte{"p.go": []byte(typePrelude)}, drive.Options{
+		Importer: oracle.Importer(), PkgPath: "main",
+		Finish: func(d *drive.Driver) {
+			pkg := d.Pkg
+			mk := func() *types.Interface {
+				var terms []*types.Term
+				for _, t := range c.Terms {
+					var tt types.Type
+					if pn, name, ok := strings.Cut(t.T, "."); ok && !strings.ContainsAny(pn, " []{*") {
+						tt = pkg.Import(pn).Ref(name).Type() // a type of an imported package
+					} else {
+						tv, err := types.Eval(token.NewFileSet(), pkg.Types, token.NoPos, t.T)
+						if err != nil {
+							panic(err)
+						}
+						tt = tv.Type
+					}
+					terms = append(terms, types.NewTerm(t.Tilde, tt))
+				}
+				embeds := []types.Type{types.NewUnion(terms)}
+				if c.Comparable {
+					embeds = append(embeds, types.Universe.Lookup("comparable").Type())
+				}
+				if c.Embed {
+					embeds = append(embeds, pkg.Types.Scope().Lookup("I0").Type())
+				}
+				var methods []*types.Func
+				if c.Method {
+					msig := types.NewSignatureType(nil, nil, nil, nil, types.NewTuple(types.NewParam(0, pkg.Types, "", types.Typ[types.String])), false)
+					methods = append(methods, types.NewFunc(token.NoPos, pkg.Types, "Str", msig))
+				}
+				return types.NewInterfaceType(methods, embeds).Complete()
+			}
+			iface := mk()
+			want = oracle.TypeKey(iface)
+			pkg.NewType("CT").InitType(pkg, iface)
+			tp := types.NewTypeParam(types.NewTypeName(token.NoPos, pkg.Types, "P", nil), mk())
+			fsig := types.NewSignatureType(nil, nil, []*types.TypeParam{tp}, types.NewTuple(types.NewParam(0, pkg.Types, "p", tp)), nil, false)
+			fn, err := pkg.NewFuncWith(token.NoPos, "GC", fsig, nil)
+			if err != nil {
+				panic(err)
+			}
+			fn.BodyStart(pkg).End()
+		},
+	})
+	if !res.Accepted() {
+		return "constraint-builder-error|" + normMsg(res.ErrText()), "declaring the constraint failed: " + res.ErrText() + "\n" + firstLines(res.Stack, 25), false
+	}
+	out := oracle.CheckSources("main", map[string]string{"out.go": res.Output[""]}, oracle.Importer())
+	if !out.OK() {
+		return "constraint-output-rejected|" + normMsg(out.ErrText(1)), fmt.Sprintf("the emitted constraint is rejected by go/types: %s\n  constraint: %s\n%s", out.ErrText(2), c, declLines(res.Output[""], "CT", "GC")), false
+	}
+	scope := out.Pkg.Scope()
+	if got := oracle.TypeKey(scope.Lookup("CT").Type().Underlying()); got != want {
+		return "constraint-changed|type-decl", fmt.Sprintf("type CT: the emitted interface denotes a different type set\n  original: %s\n  emitted:  %s\n%s", want, got, declLines(res.Output[""], "CT")), false
+	}
+	gc := scope.Lookup("GC").Type().(*types.Signature)
+	if got := oracle.TypeKey(gc.TypeParams().At(0).Constraint().Underlying()); got != want {
+		return "constraint-changed|type-param", fmt.Sprintf("GC's type parameter: the emitted constraint denotes a different type set\n  original: %s\n  emitted:  %s\n%s", want, got, declLines(res.Output[""], "GC")), false
+	}
+	return "", "", false
+}
+
+var c13TermTypes = []string{"int", "int8", "int64", "uint", "uint8", "float32", "float64", "string", "bool", "complex128", "uintptr", "[]int", "*int", "map[string]int", "chan int", "func()", "struct{ a int }", "N0", "N2", "time.Duration", "[2]string"}
 
 func typeReplayFindings(r *hx.Run, eval func(c *typeCase) (string, string)) {
 	for _, f := range r.Findings() {
@@ -324,6 +487,23 @@ func c14Eval(c *typeCase) (sig, msg string, unsound bool, zeroForm string) {
 		params := types.NewTuple(types.NewParam(0, pkg.Types, "e", errT))
 		g := pkg.NewFunc(nil, "g", params, results, false)
 		g.BodyStart(pkg).Val(params.At(0)).ReturnErr(false).End()
+		// func g2(e error) (T, error): the error return is written inside an inline closure call whose
+		// own result is a string: ReturnErr(true) leaves the enclosing function, padded with its zeros
+		{
+			results2 := types.NewTuple(types.NewParam(0, pkg.Types, "", T), types.NewParam(0, pkg.Types, "", errT))
+			params2 := types.NewTuple(types.NewParam(0, pkg.Types, "e", errT))
+			g2 := pkg.NewFunc(nil, "g2", params2, results2, false)
+			isig := types.NewSignatureType(nil, nil, nil, nil, types.NewTuple(types.NewParam(0, pkg.Types, "", types.Typ[types.String])), false)
+			g2.BodyStart(pkg)
+			cb.VarRef(nil)
+			cb.CallInlineClosureStart(isig, 0, false)
+			cb.If().Val(params2.At(0)).CompareNil(token.NEQ).Then().Val(params2.At(0)).ReturnErr(true).End()
+			cb.Val("s").Return(1)
+			cb.End()
+			cb.Assign(1)
+			cb.ZeroLit(T).ZeroLit(errT).Return(2)
+			cb.End()
+		}
 		// func h() { var c T = T() }   zero-argument conversion
 		h := pkg.NewFunc(nil, "h", nil, nil, false)
 		h.BodyStart(pkg)
@@ -402,7 +582,7 @@ func tailLines(s string, n int) string {
 
 func TestC14(t *testing.T) {
 	r := hx.Start(t, "C14")
-	r.SetRule("value types from the C13 generator (no type parameters): Package.Zero(T) must be reported with a type identical to T; `var Z T = zero`, `x := zero` (when the zero is not nil), error-return padding `return zero, zero, err` (ReturnErr), the zero-argument conversion T() and an omitted optional argument of type T are emitted and type-checked: go/types must accept them and x must have a type identical to T; the zero expression must be a literal, nil or an element-less composite literal. Non-trivial: T is not an unnamed basic type; distinct by description.")
+	r.SetRule("value types from the C13 generator (no type parameters): Package.Zero(T) must be reported with a type identical to T; `var Z T = zero`, `x := zero` (when the zero is not nil), error-return padding `return zero, zero, err` (ReturnErr, also from inside an inline closure call with ReturnErr(true)), the zero-argument conversion T() and an omitted optional argument of type T are emitted and type-checked: go/types must accept them and x must have a type identical to T; the zero expression must be a literal, nil or an element-less composite literal. Non-trivial: T is not an unnamed basic type; distinct by description.")
 	r.Assume("go/types is the oracle")
 	defer r.Done()
 	eval := func(c *typeCase) (string, string) {
